@@ -197,3 +197,40 @@ Example w_wrong_mic :
   handle w_cfg (Body (w_request s_JoinReq (firstn 22 (join_request_frame w_dev 258) ++ [0]) 21))
   = AMsg 200 MJoinAns (hex_enc (d_joineui w_dev)) (hex_enc w_netid) 1234 RMICFailed [] None no_keys None.
 Proof. vm_compute. reflexivity. Qed.
+
+(* ---------- lemmas behind the remaining statements of props/C16.v ---------- *)
+Lemma join_conformant_is cfg r d dn netid devaddr dls rxd cf jn nskek aslabel askek :
+  join_conformant cfg r d dn netid devaddr dls rxd cf jn nskek aslabel askek <->
+  (wf_device d /\ dn < 65536 /\ jn < 16777216 /\
+   length netid = 3%nat /\ bytes netid /\ length devaddr = 4%nat /\ bytes devaddr /\
+   dls < 256 /\ rxd < 16 /\ bytes cf /\ cf_canonical cf /\
+   r_mtype r = s_JoinReq /\ base_decode r = Ok tt /\
+   typed_decode r = Ok (mkTReq (join_request_frame d dn) (d_deveui d) devaddr (dec_dlsettings dls) (Z.of_N rxd) cf) /\
+   unmarshal_text 3 (r_sender r) = Ok netid /\ unmarshal_text 8 (r_receiver r) = Ok (d_joineui d) /\
+   get_keys cfg (d_deveui d) = Found (mkDevKeys (d_nwkkey d) (d_appkey d) (Z.of_N jn)) /\
+   get_kek cfg (r_sender r) = Ok nskek /\ kek_supported nskek /\
+   get_aslabel cfg (d_deveui d) = Ok aslabel /\ get_kek cfg aslabel = Ok askek /\ kek_supported askek).
+Proof. reflexivity. Qed.
+
+Lemma rejoin_conformant_is cfg r d ty rc frame netid devaddr dls rxd cf jn nskek aslabel askek :
+  rejoin_conformant cfg r d ty rc frame netid devaddr dls rxd cf jn nskek aslabel askek <->
+  (wf_device d /\ rc < 65536 /\ jn < 16777216 /\
+   length netid = 3%nat /\ bytes netid /\ length devaddr = 4%nat /\ bytes devaddr /\
+   128 <= dls < 256 /\ rxd < 16 /\ bytes cf /\ cf_canonical cf /\
+   rejoin_frame_of d ty rc frame /\
+   r_mtype r = s_RejoinReq /\ base_decode r = Ok tt /\
+   typed_decode r = Ok (mkTReq frame (d_deveui d) devaddr (dec_dlsettings dls) (Z.of_N rxd) cf) /\
+   unmarshal_text 3 (r_sender r) = Ok netid /\ unmarshal_text 8 (r_receiver r) = Ok (d_joineui d) /\
+   get_keys cfg (d_deveui d) = Found (mkDevKeys (d_nwkkey d) (d_appkey d) (Z.of_N jn)) /\
+   get_kek cfg (r_sender r) = Ok nskek /\ kek_supported nskek /\
+   get_aslabel cfg (d_deveui d) = Ok aslabel /\ get_kek cfg aslabel = Ok askek /\ kek_supported askek).
+Proof. reflexivity. Qed.
+
+Lemma rejoin_frames d rc netid skey :
+  length netid = 3%nat ->
+  rejoin_frame_of d 0 rc (rejoin02_frame d 0 netid rc skey) /\
+  rejoin_frame_of d 1 rc (rejoin1_frame d rc) /\
+  rejoin_frame_of d 2 rc (rejoin02_frame d 2 netid rc skey).
+Proof.
+  intros H. split; [apply rejoin02_frame_of; auto|]. split; [apply rejoin1_frame_of|apply rejoin02_frame_of; auto].
+Qed.
